@@ -2,6 +2,7 @@
 mod c03;
 mod c05n;
 mod c08;
+mod c09;
 mod c10;
 mod c11;
 mod c12;
@@ -133,6 +134,10 @@ fn main() {
         "c08" | "c17" => {
             let o = c08::generate(seed, scale, cmd);
             o.write(&out, cmd, "From MLV Require Import model.Bytes model.PutQuery model.Check08.", "c08case", "run08", shards);
+        }
+        "c09" => {
+            let o = c09::generate(seed, scale);
+            o.write(&out, "c09", "From MLV Require Import model.Bytes model.Inflight model.Check09.", "c09case", "run09", shards);
         }
         "c16" => {
             let o = c16::generate(seed, scale);
